@@ -161,13 +161,15 @@ let wres_txt7 = function
 
 let rres_txt6 (ws, r) =
   match r with
-  | Ok (p, vs) -> Printf.sprintf "ok %s w=%s v=%s" (txt6 p) (join (List.map w6 ws)) (views vs)
+  | Ok (p, vs) -> Printf.sprintf "ok %s w=%s v=%s c=%d%d%d" (txt6 p) (join (List.map w6 ws)) (views vs)
+                    (b01 (Packet6.coq_K05_6 p)) (b01 (Packet6.coq_K06_6 p)) (b01 (Packet6.expressible6 p))
   | Err e -> Printf.sprintf "err %s w=%s" (e6 e) (join (List.map w6 ws))
   | Panic _ -> "panic"
   | OutOfFuel -> "hang"
 let rres_txt7 (ws, r) =
   match r with
-  | Ok (p, vs) -> Printf.sprintf "ok %s w=%s v=%s" (txt7 p) (join (List.map w7 ws)) (views vs)
+  | Ok (p, vs) -> Printf.sprintf "ok %s w=%s v=%s c=%d%d%d%d" (txt7 p) (join (List.map w7 ws)) (views vs)
+                    (b01 (Packet7.coq_K05_7 p)) (b01 (Packet7.coq_K06_7 p)) (b01 (Packet7.coq_K06T_7 p)) (b01 (Packet7.expressible7 p))
   | Err e -> Printf.sprintf "err %s w=%s" (e7 e) (join (List.map w7 ws))
   | Panic _ -> "panic"
   | OutOfFuel -> "hang"
@@ -342,9 +344,9 @@ let run = function
   | ["r6"; hint; cap; h; side] -> rres_txt6 (Packet6.read6 (huff_d side) (unhex h) (hint_of hint) (ni cap))
   | ["rp6"; hint; h] -> rres_txt6 (Packet6.read_nodecomp6 (unhex h) (hint_of hint))
   | ["rD6"; hint; cap; h; side] ->
-    let pre = unhex h and b = Buffer.create 16384 in
+    let pre = unhex h and b = Buffer.create 16384 and capn = ni cap and hn = hint_of hint and hf = huff_d side in
     for v = 0 to 255 do
-      Buffer.add_string b (rres_txt6 (Packet6.read6 (huff_d side) (pre @ [z_of_int v]) (hint_of hint) (ni cap)));
+      Buffer.add_string b (rres_txt6 (Packet6.read6 hf (pre @ [z_of_int v]) hn capn));
       Buffer.add_char b ';'
     done;
     Printf.sprintf "%08x" (fnv (Buffer.contents b))
